@@ -362,7 +362,7 @@ var unlistedStores = []string{"ca:unlisted", "signingAuthority:unlisted", "tsa:u
 
 func TestC03_Placements(t *testing.T) {
 	rec := stats.New(t, "C03", rule)
-	rp.Check(t, 24000, 3000000, func(rt *rapid.T) {
+	rp.Check(t, 24000, 1200000, func(rt *rapid.T) {
 		c := Case{Stores: map[string]string{}, Scheme: rp.Pick(rt, "scheme", "x509", "sa"), Format: rp.Pick(rt, "format", envb.MTJWS, envb.MTCOSE),
 			Level: kit.DrawLevel(rt), Token: rapid.IntRange(0, 3).Draw(rt, "token") == 0}
 		c.RealStore = rapid.IntRange(0, 5).Draw(rt, "realStore") == 0
